@@ -15,9 +15,24 @@ R == IF Thorough THEN 1..4 ELSE 1..3
 Trk == <<<<TRUE, TRUE, TRUE>>, <<TRUE, TRUE, FALSE>>, <<TRUE, FALSE, FALSE>>, <<FALSE, TRUE, FALSE>>, <<FALSE, FALSE, TRUE>>>>
 D0 == SetToSeq((R \X R \X R) \cup {<<5, 4, 6>>, <<1, 7, 5>>, <<6, 1, 1>>, <<9, 2, 2>>, <<17, 3, 1>>, <<2, 9, 1>>})
 Descs == MyCases(Flatten2([i \in DOMAIN D0 |-> [t \in DOMAIN Trk |-> <<"ok", D0[i][1], D0[i][2], D0[i][3], Trk[t]>>]])
+                 \o << <<"two", 2, 1>>, <<"two", 1, 2>>, <<"two", 3, 2>> >>
                  \o << <<"bad", <<2>>, <<2>>, <<3>>>>, <<"bad", <<2>>, <<2>>, <<2, 2, 2>>>>, <<"bad", <<2>>, <<2>>, <<>>>> >>)
 
+(* two Forward calls of ONE layer object before any back-propagation, then two back-propagations: the graphs share only *)
+(* the leaves W and B, whose gradients add up (batch 1: no expansion with factor > 1 is involved)                          *)
+TwoFwd(feat, out) ==
+  LET ins == <<In("w", <<out>>, TRUE), In("b", <<out>>, TRUE), In("x", <<1, feat>>, FALSE), In("z", <<1, feat>>, FALSE),
+               In("g", <<1, out>>, FALSE), In("h", <<1, out>>, FALSE)>>
+      par == [inst |-> 1, dim |-> 0]
+      code == <<Ins("fc", par, <<1, 2, 3>>), Ins("mul", NoPar, <<7, 5>>), Ins("fc", par, <<1, 2, 4>>), Ins("mul", NoPar, <<9, 6>>)>>
+      sum(a, b) == [i \in DOMAIN a |-> Add(a[i], b[i])]
+  IN MkCase("c16", "fc-two-forwards", ins, <<"any", "any", "any", "any", "any", "any">>, code, <<7, 9>>, 8, FALSE)
+     @@ [post |-> <<EncIns(Ins("bp", NoPar, <<10>>))>>,
+         postgrads |-> <<[node |-> 1, dims |-> <<out>>, data |-> EncSeq(sum(GradDef(ins, code, 8, 1), GradDef(ins, code, 10, 1)))],
+                         [node |-> 2, dims |-> <<out>>, data |-> EncSeq(sum(GradDef(ins, code, 8, 2), GradDef(ins, code, 10, 2)))]>>]
+
 Build(d) ==
+  IF d[1] = "two" THEN TwoFwd(d[2], d[3]) ELSE
   IF d[1] = "bad"
   THEN MkCase("c16", "fc-bad", <<In("w", d[2], TRUE), In("b", d[3], TRUE), In("x", d[4], FALSE)>>, <<"any", "any", "any">>,
               <<Ins("fc", NoPar, <<1, 2, 3>>)>>, <<>>, 0, FALSE)
